@@ -148,7 +148,8 @@ pub(crate) fn parse_part(
             parse_time_part(chars, string)?
         }
         _ => {
-            remove_part(chars.len(), string)?;
+            // A run of a literal character: as many characters of the input as the run has
+            remove_part(chars.chars().count(), string)?;
             None
         }
     })
@@ -366,7 +367,8 @@ pub(crate) fn parse_date_part(
         },
         'e' => parse_wday(chars.len(), string)?,
         _ => {
-            remove_part(chars.len(), string)?;
+            // A run of a literal character: as many characters of the input as the run has
+            remove_part(chars.chars().count(), string)?;
             None
         }
     })
@@ -690,7 +692,8 @@ pub(crate) fn parse_time_part(
         'X' => parse_zone(chars.len(), string, true)?,
         'x' => parse_zone(chars.len(), string, false)?,
         _ => {
-            remove_part(chars.len(), string)?;
+            // A run of a literal character: as many characters of the input as the run has
+            remove_part(chars.chars().count(), string)?;
             None
         }
     })
